@@ -90,7 +90,7 @@ def gen_generic_matrix(rng, n, m, lo=-9, hi=9):
 
 
 def gen_costs(rng, n, B=None, kind=None):
-    kind = kind or rng.choice(["zero", "positive", "negative", "mixed", "prohibitive", "attract_zero_row", "none"])
+    kind = kind or rng.choice(["zero", "positive", "negative", "mixed", "prohibitive", "attract_zero_row", "none", "offset_small_spread"])
     if kind == "none":
         return None, kind
     if kind == "zero":
@@ -112,6 +112,11 @@ def gen_costs(rng, n, B=None, kind=None):
         zr = [i for i in range(n) if B is not None and not np.any(B[i])]
         for i in zr or [rng.randrange(n)]:
             c[i] = -float(rng.randint(8, 40))
+    elif kind == "offset_small_spread":
+        # a large common price plus small per-sensor differences (exactly representable): the differences still decide
+        # between sensors of equal residual norm
+        base = rng.choice([1200.0, 4096.0, -3000.0, 65536.0])
+        c = [base + rng.randint(0, 8) / 1024 for _ in range(n)]
     else:
         raise ValueError(kind)
     return np.array(c, dtype=float), kind
